@@ -179,6 +179,11 @@ class Scenario:
             kw["initializer"] = tasks.initializer
             kw["initargs"] = ("mark", tuple(c.get("init_fail", ())))
         self._roles()
+        if c.get("job_reducers") or c.get("result_reducers"):
+            if c.get("job_reducers"):
+                kw["job_reducers"] = {tasks.Tagged: tasks.make_reducer(c["job_reducers"])}
+            if c.get("result_reducers"):
+                kw["result_reducers"] = {tasks.Tagged: tasks.make_reducer(c["result_reducers"])}
         if c["kind"] == "plain":
             e = pe.ProcessPoolExecutor(max_workers=c["max_workers"], timeout=c.get("timeout"), context=esim.SimContext(), **kw)
         else:
@@ -206,6 +211,8 @@ class Scenario:
                 args = [tid, "ok", tasks.Unloadable("arg %s" % tid)]
             elif kind == "too_large":
                 args = [tid, "ok", TooLarge()]
+            elif kind == "tagged":
+                args = [tid, "tagged", tasks.Tagged(tid)]
             elif kind == "probe":
                 args = [tid, "ok", None]
             try:
@@ -352,7 +359,9 @@ class Scenario:
         ex = fut.exception()
         if ex is None:
             v = fut.result()
-            S.obs(ev="resolve", t=tid, outcome="result", good=(v == tasks.value_of(tid) or (isinstance(v, list) and v[:2] in (["value", tid], ["pid", tid], ["pickler", tid]))),
+            if isinstance(v, list) and v[:1] == ["tagged"]:
+                v = ["tagged", v[1], v[2], tasks.seen_as(v[3])]
+            S.obs(ev="resolve", t=tid, outcome="result", good=(v == tasks.value_of(tid) or (isinstance(v, list) and v[:2] in (["value", tid], ["pid", tid], ["pickler", tid], ["tagged", tid]))),
                   value=repr(v)[:60], by=esim.me())
         else:
             cause = getattr(ex, "__cause__", None)
